@@ -832,6 +832,9 @@ def grid(check, prog):
                 return t[1] == 'is'
             if t[0] == 'cmp' and t[2] == ('call', 'len', (P['arr'],), ()):
                 return True
+            if t[0] == 'cmp' and t[1] == '==' and ('attr', P['arr'], 'ndim') in (t[2], t[3]):
+                # (the array has its x, y [and extra] axes and no z axis yet)
+                return True
             return None
         it2 = Interp(prog, max_depth=2, decide=decide2, opaque=[
             MD + 'update_metadata', 'holopy.core.utils.ensure_array'])
@@ -865,6 +868,30 @@ def grid(check, prog):
                   'axis: x_i = i * s_x over axis 1, y_j = j * s_y over axis 2 of the '
                   'array that is stored (%d rows)' % rows, prog.loc(q, fd),
                   fail_detail=badrow)
+    # whether the array still lacks its z axis is a matter of its rank against the
+    # number of axes it is said to have (x, y and the extra dimensions) -- not of
+    # how many rows it has: a one-row colour image (1, N, channels) is an image
+    # without a z axis like any other
+    arrt = da2[0]['args'][0] if 'da2' in dir() and da2 and da2[0]['args'] else None
+    it3 = Interp(prog, max_depth=1, opaque=[MD + 'make_coords', MD + 'update_metadata',
+                                            'holopy.core.utils.ensure_array'])
+    it3.analyze(q)
+    da3 = [c for c in it3.calls if c['name'] == 'xarray.DataArray']
+    conds = [x[1] for c in da3 if c['args'] for x in subterms(c['args'][0])
+             if x[0] == 'ite' and any(y[0] == 'call' and y[1] == 'numpy.expand_dims'
+                                      for y in subterms(x[2]))]
+    by_rows = [c for c in conds if any(y == ('call', 'len', (P['arr'],), ())
+                                       for y in subterms(c))]
+    by_rank = [c for c in conds if any(y == ('attr', P['arr'], 'ndim') for y in subterms(c))
+               and any(y == P['extra_dims'] for y in subterms(c))]
+    check.require(bool(conds) and not by_rows and len(by_rank) == len(conds),
+                  'U3-z-axis-by-rank', 'data_grid z axis',
+                  'the z axis is added when the rank is 2 + the number of extra '
+                  'dimensions', prog.loc(q, fd),
+                  fail_detail='decided by %s: detector_grid((1, N), s, extra_dims={'
+                  "'illumination': [...]}) and a one-row colour raster have one row, "
+                  'are taken for arrays that already have a z axis, and fail with '
+                  '"different number of dimensions"' % [show(c)[:80] for c in conds][:1])
     da = [c for c in it.calls if c['name'] == 'xarray.DataArray']
     ok = len(da) == 1 and kw_of(da[0], 'dims') is not None
     if ok:
